@@ -1,6 +1,7 @@
 import MlModel.Model.Stage
 import MlModel.Lemmas.StageInv
 import MlModel.Generated.StageTurn
+import MlModel.Lemmas.StageTurn
 /-!
 # C16 — interleaved stages: enqueuer registration happens-before the worker's pulling
 
@@ -145,16 +146,31 @@ theorem C16_stage_fused_is_turn {w : Nat} {s s' : St} (hm : s.midTurn = false)
 NOT PROVED (full statement, kept visible):
 
     theorem C16_stage_turn_no_lost_batch (h : ReachT (St.init all n) s) :
-        (s.consumerDone = true → s.consumed.Perm all) ∧
-        (s.toProduce ++ s.inp ++ hands s.ws ++ s.resultQ ++ s.consumed).Perm all
+        (s.enqueueDone = true → s.resultQ = [] → s.consumed.Perm all) ∧ (s.consumerDone = true → s.consumed.Perm all)
 
-i.e. conservation / no lost batch for the thread-granular LTS in which a worker may already pull between its
+i.e. no lost batch for the thread-granular LTS (its conservation half IS proved: `C16_stage_turn_conservation`) in which a worker may already pull between its
 kick-off and its registration.  The invariant needed on top of `Lemmas/StageInv.lean` is "a `kicked` worker with
 a non-empty hand implies `stop = 0`" (`finish` is an event-loop step, so it cannot happen mid-turn; once
 `stop ≠ 0` some worker has seen the end of the input and a kicked worker can pull nothing).  Evidence short of
 a proof: the driver's exhaustive `explore` (mode "turn") of all schedules for ≤ 3 workers / ≤ 3 batches ends in
 complete terminals only, and every projected real run is accepted by `stepT`.  The theorems above
 (`ackAwait = false`) cover the executions in which no real thread runs mid-turn (`C16_stage_fused_is_turn`). -/
+
+/-- **Conservation at thread granularity.**  In every state the thread-granular LTS `stepT` can reach - a worker
+may already have pulled between its kick-off and its registration - every batch the previous stage produces is in
+exactly one place (not produced, stage input, a worker's hands, result queue, consumed): nothing is duplicated
+and nothing disappears.  (What is still missing for `stepT` is the other half of `C16_stage_no_lost_batch`: that a
+consumer which STOPS has seen everything.) -/
+theorem C16_stage_turn_conservation (h : ReachT (St.init all n) s) :
+    (s.toProduce ++ s.inp ++ hands s.ws ++ s.resultQ ++ s.consumed).Perm all :=
+  cons_reachT h
+
+/-- conservation holds in EVERY configuration of the LTS, also with a suspension point between kick-off and
+registration (`ackAwait = true`): what that configuration breaks is not conservation but the consumer's stopping
+rule (`Witness/C16Stage.lean`: the consumer stops while a batch is still in a worker's hands) -/
+theorem C16_stage_conservation_any_cfg (h : Reach c (St.init all n) s) :
+    (s.toProduce ++ s.inp ++ hands s.ws ++ s.resultQ ++ s.consumed).Perm all :=
+  cons_reach_any h
 
 /-- test (non-vacuity of the thread-granular LTS): the worker pulls BETWEEN kick-off and registration, the
 consumer still receives everything -/
